@@ -876,7 +876,6 @@ mod bool {
     #[cfg(test)]
     use super::test_bool_mask::*;
     use crate::{BVec2, BVec3, BVec4};
-    #[cfg(not(feature = "scalar-math"))]
     use crate::{BVec3A, BVec4A};
     use core::fmt;
     use serde::{
@@ -888,7 +887,6 @@ mod bool {
     impl_serde_vec3!(bool, BVec3);
     impl_serde_vec4!(bool, BVec4);
 
-    #[cfg(not(feature = "scalar-math"))]
     impl Serialize for BVec3A {
         fn serialize<S>(&self, serializer: S) -> Result<S::Ok, S::Error>
         where
@@ -903,7 +901,6 @@ mod bool {
         }
     }
 
-    #[cfg(not(feature = "scalar-math"))]
     impl<'de> Deserialize<'de> for BVec3A {
         fn deserialize<D>(deserializer: D) -> Result<Self, D::Error>
         where
@@ -939,7 +936,6 @@ mod bool {
         }
     }
 
-    #[cfg(not(feature = "scalar-math"))]
     #[test]
     fn test_bvec3a_serde() {
         let a = BVec3A::new(V1, V2, V3);
@@ -957,7 +953,6 @@ mod bool {
         assert!(deserialized.is_err());
     }
 
-    #[cfg(not(feature = "scalar-math"))]
     impl Serialize for BVec4A {
         fn serialize<S>(&self, serializer: S) -> Result<S::Ok, S::Error>
         where
@@ -973,7 +968,6 @@ mod bool {
         }
     }
 
-    #[cfg(not(feature = "scalar-math"))]
     impl<'de> Deserialize<'de> for BVec4A {
         fn deserialize<D>(deserializer: D) -> Result<Self, D::Error>
         where
@@ -1012,7 +1006,6 @@ mod bool {
         }
     }
 
-    #[cfg(not(feature = "scalar-math"))]
     #[test]
     fn test_bvec4a_serde() {
         let a = BVec4A::new(V1, V2, V3, V4);
